@@ -1609,3 +1609,103 @@ func fieldCandidates(t HeaderType) []EncoderDecoder {
 }
 `}}})
 }
+
+func init() {
+	// round 5: state shared by all sessions, reached through a pointer field of the per-session handler object
+	addMutant(Mutant{Name: "c09-user-names-in-a-locked-table-shared-by-all-connections", Props: []string{"C09"}, Rule: "R-CONFINED", KeySub: "state-shared-by-sessions",
+		Why: "the ASCII login keeps user names in a package-level table keyed by session id alone (properly locked): two connections using the same id see each other's user name",
+		Edits: []Edit{{File: "cmds/server/handlers/authen_ascii.go", Old: `import (
+	"fmt"
+
+	tq "github.com/facebookincubator/tacquito"
+)
+
+// NewAuthenticateASCII ...`, New: `import (
+	"fmt"
+	"sync"
+
+	tq "github.com/facebookincubator/tacquito"
+)
+
+// NewAuthenticateASCII ...`}, {File: "cmds/server/handlers/authen_ascii.go", Old: `	return &AuthenticateASCII{loggerProvider: l, configProvider: c, username: username, recorderWriter: newPacketLogger(l)}
+}`, New: `	return &AuthenticateASCII{loggerProvider: l, configProvider: c, username: username, names: asciiNames, recorderWriter: newPacketLogger(l)}
+}
+
+// asciiNames remembers the user name given for a session id, so that a client that repeats its user name
+// prompt does not have to be asked again
+var asciiNames = &nameTable{byID: map[tq.SessionID]string{}}
+
+type nameTable struct {
+	mu   sync.Mutex
+	byID map[tq.SessionID]string
+}
+
+func (u *nameTable) note(id tq.SessionID, name string) {
+	u.mu.Lock()
+	defer u.mu.Unlock()
+	u.byID[id] = name
+}
+
+func (u *nameTable) get(id tq.SessionID) string {
+	u.mu.Lock()
+	defer u.mu.Unlock()
+	return u.byID[id]
+}`}, {File: "cmds/server/handlers/authen_ascii.go", Old: `	configProvider
+	username string
+}`, New: `	configProvider
+	username string
+	names    *nameTable
+}`}, {File: "cmds/server/handlers/authen_ascii.go", Old: `		a.username = string(body.UserMessage)
+	}`, New: `		a.username = string(body.UserMessage)
+		a.names.note(request.Header.SessionID, a.username)
+	} else if prev := a.names.get(request.Header.SessionID); prev != "" {
+		a.username = prev
+	}`}}})
+	addMutant(Mutant{Name: "c15-user-names-in-an-unlocked-table-behind-a-handler-field", Props: []string{"C15", "C09"}, Rule: "R-SHAREDWRITE", KeySub: "nameTable).note",
+		Why: "the same table written without its lock: a data race between connection goroutines, reached through a pointer field of the per-session handler",
+		Edits: []Edit{{File: "cmds/server/handlers/authen_ascii.go", Old: `import (
+	"fmt"
+
+	tq "github.com/facebookincubator/tacquito"
+)
+
+// NewAuthenticateASCII ...`, New: `import (
+	"fmt"
+	"sync"
+
+	tq "github.com/facebookincubator/tacquito"
+)
+
+// NewAuthenticateASCII ...`}, {File: "cmds/server/handlers/authen_ascii.go", Old: `	return &AuthenticateASCII{loggerProvider: l, configProvider: c, username: username, recorderWriter: newPacketLogger(l)}
+}`, New: `	return &AuthenticateASCII{loggerProvider: l, configProvider: c, username: username, names: asciiNames, recorderWriter: newPacketLogger(l)}
+}
+
+// asciiNames remembers the user name given for a session id, so that a client that repeats its user name
+// prompt does not have to be asked again
+var asciiNames = &nameTable{byID: map[tq.SessionID]string{}}
+
+type nameTable struct {
+	mu   sync.Mutex
+	byID map[tq.SessionID]string
+}
+
+func (u *nameTable) note(id tq.SessionID, name string) {
+	u.byID[id] = name
+}
+
+func (u *nameTable) get(id tq.SessionID) string {
+	u.mu.Lock()
+	defer u.mu.Unlock()
+	return u.byID[id]
+}`}, {File: "cmds/server/handlers/authen_ascii.go", Old: `	configProvider
+	username string
+}`, New: `	configProvider
+	username string
+	names    *nameTable
+}`}, {File: "cmds/server/handlers/authen_ascii.go", Old: `		a.username = string(body.UserMessage)
+	}`, New: `		a.username = string(body.UserMessage)
+		a.names.note(request.Header.SessionID, a.username)
+	} else if prev := a.names.get(request.Header.SessionID); prev != "" {
+		a.username = prev
+	}`}}})
+}
